@@ -496,6 +496,30 @@ def decrypt (env : Env) (ct : Ct) (pt : Pt) : Res Ct :=
     | none => .panic .usizeSub
     | some _ => .ok ct
 
+/-! ## the shift amounts handed to the core (`glwe_lsh*`, `vec_znx_rsh_*`) — the data path of the linear operations -/
+
+/-- `ckks_{add,sub}_into_unsafe`: bits by which `a` resp. `b` are shifted left into `dst` -/
+def addShiftAB (env : Env) (dst a b : Ct) : Nat × Nat :=
+  let off := offsetBinary env dst a b
+  if off = 0 ∧ a.md.logBudget = b.md.logBudget then (0, 0)
+  else if a.md.logBudget ≤ b.md.logBudget then (off, b.md.logBudget - a.md.logBudget + off)
+  else (a.md.logBudget - b.md.logBudget + off, off)
+
+/-- `ckks_{add,sub}_assign_unsafe`: (shift applied to `dst` in place, shift applied to `a`) -/
+def assignShiftDA (dst a : Ct) : Nat × Nat :=
+  if dst.md.logBudget < a.md.logBudget then (0, a.md.logBudget - dst.md.logBudget)
+  else (dst.md.logBudget - a.md.logBudget, 0)
+
+/-- `glwe_lsh(dst, a, bits + offset)` of `ckks_mul_pow2_into` (`bits = 0`: neg, rotate, conjugate, add/sub of a plaintext) -/
+def unaryShift (env : Env) (dst a : Ct) (bits : Nat) : Nat := bits + offsetUnary env dst a
+
+/-- `glwe_lsh(dst, src, k + offset)` of `ckks_rescale_into` -/
+def rescaleIntoShift (env : Env) (dst : Ct) (k : Nat) (src : Ct) : Nat :=
+  k + ((src.md.logDelta + (src.md.logBudget - k)) - dst.maxK env)
+
+/-- `vec_znx_rsh_{add_into,sub}(offset)` of a ZNX plaintext: `ct.log_budget + pt.log_delta - pt.max_k` -/
+def ptShift (dst : Ct) (pt : Pt) : Nat := (dst.md.logBudget + pt.md.logDelta) - pt.maxK
+
 /-! ## composite operations (`leveled/delegates/composite.rs`) -/
 
 /-- `ensure_accumulation_fits`: `base2k < 64` and `n ≤ 2^(63 - base2k)` -/
